@@ -33,7 +33,7 @@ MCDoms == IF MODE = "mut" THEN TinyDoms ELSE IF RICH
         int |-> {L(4), LSub(INT_MAX_L, <<0, 1>>)}, strs |-> {<<97>>, <<98, 99>>}, alpha |-> {97, 98}, counts |-> 1..2,
         blobs |-> {<<1>>, <<7, 1>>}, unrec |-> L(7), strict |-> TRUE]
 
-Idle == [r |-> [data |-> <<>>, pos |-> 0, chunked |-> FALSE, cs |-> 0], dstack |-> <<>>, dstatus |-> "idle", dexc |-> "", dfuel |-> -1, dresult |-> NoneV]
+Idle == [r |-> [data |-> <<>>, pos |-> 0, chunked |-> FALSE, cs |-> 0, log |-> <<>>], dstack |-> <<>>, dstatus |-> "idle", dexc |-> "", dfuel |-> -1, dresult |-> NoneV]
 SetDeser(s) == r' = s.r /\ dstack' = s.dstack /\ dstatus' = s.dstatus /\ dexc' = s.dexc /\ dfuel' = s.dfuel /\ dresult' = s.dresult
 ByteStrings(n) == UNION {[1..k -> {0, 1, 2, 254, 255}] : k \in 0..n}
 
@@ -46,12 +46,12 @@ Init ==
           /\ r = Idle.r /\ dstack = Idle.dstack /\ dstatus = Idle.dstatus /\ dexc = Idle.dexc /\ dfuel = Idle.dfuel /\ dresult = Idle.dresult
      ELSE IF MODE = "givenbytes"
      THEN /\ cid \in 1..Len(Cases) /\ p = Cases[cid].p /\ phase = "de" /\ san0 = FALSE /\ ch0 = Cases[cid].ch0 /\ dfuel0 = -1
-          /\ w = [bytes |-> <<>>, san |-> FALSE] /\ stack = <<>> /\ status = "idle" /\ exc = "" /\ fuel = -1 /\ result = NoneV
+          /\ w = [bytes |-> <<>>, san |-> FALSE, log |-> <<>>] /\ stack = <<>> /\ status = "idle" /\ exc = "" /\ fuel = -1 /\ result = NoneV
           /\ DInit(Cases[cid].data, Progs[p].code, Progs[p].name, ch0, dfuel0)
      ELSE /\ cid = 0 /\ p \in {i \in 1..Len(Progs) : MODE # "rt" \/ Progs[i].rt}
   /\ IF MODE \in {"given", "givenrt", "givenbytes"} THEN TRUE ELSE IF MODE = "bytes"
      THEN /\ phase = "de" /\ san0 = FALSE /\ ch0 \in BOOLEAN /\ dfuel0 \in DFUELS
-          /\ w = [bytes |-> <<>>, san |-> FALSE] /\ stack = <<>> /\ status = "idle" /\ exc = "" /\ fuel = -1 /\ result = NoneV
+          /\ w = [bytes |-> <<>>, san |-> FALSE, log |-> <<>>] /\ stack = <<>> /\ status = "idle" /\ exc = "" /\ fuel = -1 /\ result = NoneV
           /\ \E data \in ByteStrings(MAXBYTES) : DInit(data, Progs[p].code, Progs[p].name, ch0, dfuel0)
      ELSE /\ phase = "ser" /\ san0 \in (IF MODE \in {"invalid", "mut"} THEN {FALSE} ELSE BOOLEAN) /\ ch0 = FALSE /\ dfuel0 = -1
           /\ SInit(Progs[p].code, Progs[p].name, Free, san0, fuel0)
@@ -84,7 +84,7 @@ ToInvalid == /\ phase = "ser" /\ status = "done" /\ exc = "" /\ MODE = "invalid"
              /\ LET ms == Mutations(Progs[p].code, Progs[p].name, result)
                  IN  \E k \in 1..Len(ms) :
                        /\ inv' = [what |-> ms[k].what, stray |-> ms[k].stray]
-                       /\ w' = [bytes |-> <<>>, san |-> san0]
+                       /\ w' = [bytes |-> <<>>, san |-> san0, log |-> <<>>]
                        /\ stack' = <<[code |-> Progs[p].code, saved |-> san0, start |-> 0, obj |-> [_t |-> Progs[p].name], given |-> Given(ms[k].obj),
                                       inch |-> FALSE, missing |-> FALSE, lens |-> [x \in {} |-> 0], dest |-> [k |-> "root"], cls |-> Progs[p].name]>>
                        /\ status' = "running" /\ exc' = "" /\ fuel' = -1 /\ result' = ms[k].obj
@@ -124,9 +124,9 @@ PRoundTrip == (MODE = "rt" /\ phase = "de" /\ dstatus = "done" /\ ~Progs[p].gen)
 PRefused == (phase = "ser2" /\ status = "done" /\ ~inv.stray) => exc \in {"SerializationError", "ValueError"}
 PTerminates == <>(phase = "de" => dstatus \in {"done", "bound"})
 
-SerRec == [kind |-> "ser", cid |-> cid, prog |-> Progs[p].name, san0 |-> san0, fuel |-> fuel0, exc |-> exc, bytes |-> w.bytes, san_end |-> w.san, obj |-> result]
+SerRec == [kind |-> "ser", cid |-> cid, prog |-> Progs[p].name, san0 |-> san0, fuel |-> fuel0, exc |-> exc, bytes |-> w.bytes, san_end |-> w.san, modes |-> w.log, obj |-> result]
 DeRec == [kind |-> "de", cid |-> cid, prog |-> Progs[p].name, data |-> r.data, ch0 |-> ch0, dfuel |-> dfuel0, status |-> dstatus, exc |-> dexc, pos |-> r.pos,
-          ch_end |-> r.chunked, obj |-> dresult, src |-> result, rt_ok |-> (MODE \in {"rt", "givenrt"} /\ RoundTripHere)]
+          ch_end |-> r.chunked, modes |-> r.log, obj |-> dresult, src |-> result, rt_ok |-> (MODE \in {"rt", "givenrt"} /\ RoundTripHere)]
 \* C19 on the model: whatever the history, the instance and its serialization are what they were (action property)
 PImmutable == [][(phase = "mut" /\ phase' = "mut") => (result' = result /\ w' = w)]_vars
 MutRec == [kind |-> "mut", prog |-> Progs[p].name, obj |-> result, bytes |-> w.bytes, hist |-> inv.hist]
